@@ -18,6 +18,12 @@
    NAMES is the definition of c_names — that the generated class really computes NAMES = ENDOGENOUS + EXOGENOUS + PARAMETERS + ERRORS
    is C15_names_and_check_lines; verbatim blocks contribute no lag or lead (their text is not lexed); explicit lengths shorter
    than the script's are imposed as given (C03_lags_leads) and then the range is NOT feasible — nothing more is claimed.
+   LENGTHS ARE >= 0: the range theorems assume `0 <= lags, leads`; negative explicit lags= / leads= give malformed periods in fsic
+   (mirrored by the model, C03_default_range_bounds, and compared by K) and are excluded from the property's reading.
+   The default range is the feasible set FOR THE CLASS'S OWN LAGS / LEADS (C03_default_range_of_program: default options);
+   explicit lengths smaller than the script's are the caller's override (reads then wrap around, as in C04) — not claimed feasible.
+   `assigned by an equation` = a variable in the text left of the first `=`: a second target (`Y = Z = X`, `Y = X ; X = 3`)
+   is a kept finding (C03_chained_assignment_refuted).
    `two different equations` means two different NORMALISED TEXTS: any spacing difference that the normalisation keeps counts
    (C03_same_equation_different_spacing_refuted — a known finding). *)
 From Coq Require Import String Ascii List Bool ZArith.
@@ -300,3 +306,19 @@ Theorem C03_default_range_bounds : forall n lags leads l, default_range n lags l
   (forall t, In t l -> (lags <= t <= Z.of_nat n - 1 - leads)%Z) /\ (length l <= n)%nat /\ NoDup l.
 Proof. exact default_range_bounds. Qed.
 Print Assumptions C03_default_range_bounds.
+
+(* KEPT FINDING (reviewer2-B; C01 records it too): a second assignment target inside one statement is written by the generated
+   code but classified EXOGENOUS — "endogenous iff some equation assigns it" fails for these accepted scripts *)
+Theorem C03_chained_assignment_refuted :
+  match parse_model_nocheck "Y = Z = X[-1]" with
+  | POk syms => map (fun s => (sname s, stype s, scode s)) syms =
+                [(Some "Y", TEndogenous, Some "self._Y[t] = self._Z[t] = self._X[t-1]"); (Some "Z", TExogenous, None); (Some "X", TExogenous, None)]
+  | _ => False
+  end /\
+  match parse_model_nocheck "Y = X[-1] ; X = 3" with
+  | POk syms => map (fun s => (sname s, stype s, scode s)) syms =
+                [(Some "Y", TEndogenous, Some "self._Y[t] = self._X[t-1] ; self._X[t] = 3"); (Some "X", TExogenous, None)]
+  | _ => False
+  end.
+Proof. exact chained_assignment_refuted. Qed.
+Print Assumptions C03_chained_assignment_refuted.
